@@ -68,6 +68,9 @@ class Check:
         self.transitions += res.transitions
         rec = {"model": name, "states": res.states, "distinct": res.distinct, "depth": res.depth,
                "wall_s": round(res.wall_s, 2), "expect": expect or "holds", "violated": res.violated, "note": note}
+        if getattr(res, "coverage", None):
+            rec["action_coverage"] = res.coverage          # TLC -coverage 1: action -> states generated through it
+            rec["actions_never_taken"] = sorted(a for a, n in res.coverage.items() if n == 0)
         self.models.append(rec)
         if expect is None:
             if not res.ok:
